@@ -166,12 +166,17 @@ Ltac solve_eff :=
   | solve [eapply E_realize; [proj; reflexivity | fin ..]]
   | solve [eapply E_alloc; [proj; reflexivity | fin ..]] ].
 
+Lemma gen_frame_plain : forall g fr, gen_frame g = Some fr -> plain fr = true.
+Proof. intros. destruct g; simpl in H; inversion H; reflexivity. Qed.
+
 Lemma stepf_eff : forall restore t st st' th,
   stepf restore t st = Some st' -> nth_error (thr st) t = Some th -> eff restore t st st' th.
 Proof.
   intros restore t st st' th H Hth. unfold stepf in H. rewrite Hth in H.
-  unfold start_op, top_ret in H.
+  unfold start_op, top_ret, malloc in H.
   destruct_matches H; try discriminate; inversion H; subst; clear H;
     repeat match goal with H : (_, _) = (_, _) |- _ => inversion H; subst; clear H end.
   all: try solve_eff.
-Admitted.
+  - eapply E_seq_start; [proj; reflexivity | try fin ..]. eapply gen_frame_plain; eauto.
+  - eapply E_comp_start; [proj; reflexivity | try fin ..]. eapply gen_frame_plain; eauto.
+Qed.
